@@ -31,10 +31,10 @@ TRUSTED = ["modelled not verified: Go mutexes/atomics (critical section = atomic
 ASSUMES = ["a follower acknowledges offset o only after every earlier offset (stream order; re-sent acks allowed)",
            "1 <= rf <= 17 for 'commit equals true commit' (safety half holds for every rf)",
            "single term, no WAL I/O error, no Close during the schedule (pipeline theorems)"]
-RULE = ("quorum leg: call sequences of 5..65 ops; 40% admissible leader-like histories (rf 1..17, acks in stream order with "
+RULE = ("quorum leg: call sequences of 5..65 ops incl. waiters parked on the head offset (real goroutines in WaitForHeadOffset) and waits with a cancelled context; 40% admissible leader-like histories (rf 1..17, acks in stream order with "
         "duplicates/re-sends/acks above head), 20% dense early-ack histories, 40% arbitrary calls (rf 0..24, head jumps, skipped "
-        "acks, calls after Close, >16 cursors); distinct by content, all non-trivial. pipeline leg: per round 21 scenarios on a real "
-        "leader (rf 1/2/3, SyncData on/off, 2..16 writers x 6..60 puts; WAL segments of 8-32 KiB with padded values and trimmer rounds in a share of them (roll-*), six forced kinds (incl. follower acks processed before the cursor's Send returns with a sequential writer and the follower needed for the quorum, rf 2,3; the real follower cursor over a replication stream that breaks with pushed-but-unacked entries or their acks in flight, rf 2,3,5; and caller context cancelled at every pipeline stage, rf 1..5): writer held between allocation and append, ack before head advance, application of n held in the KV layer while n+1 is acknowledged); distinct by scenario parameters")
+        "acks, calls after Close, >16 cursors); distinct by content, all non-trivial. pipeline leg: per round 23 scenarios on a real "
+        "leader (rf 1/2/3, SyncData on/off, 2..16 writers x 6..60 puts; WAL segments of 8-32 KiB with padded values and trimmer rounds in a share of them (roll-*), seven forced kinds (incl. rf 4,5 with one follower acking ahead of the head while the other cursors are parked in WaitForHeadOffset; follower acks processed before the cursor's Send returns with a sequential writer and the follower needed for the quorum, rf 2,3; the real follower cursor over a replication stream that breaks with pushed-but-unacked entries or their acks in flight, rf 2,3,5; and caller context cancelled at every pipeline stage, rf 1..5): writer held between allocation and append, ack before head advance, application of n held in the KV layer while n+1 is acknowledged); distinct by scenario parameters")
 LEGS = [
     {"name": "quorum", "harness": "quorum", "model": "quorum", "n_quick": 8000, "n_thorough": 400000,
      "corpus": "corpus/quorum", "timeout": 600, "timeout_thorough": 3000},
